@@ -153,8 +153,59 @@ def check(name, checks):
     return 0
 
 
+def precheck(name, checks):
+    """Like check, but through `go build -overlay` (leaves /repo untouched): a preliminary verdict that can run
+    while something else is using /repo. The verdict of record is the one of `check`."""
+    d = os.path.join(ROOT, "seeded", name)
+    meta = json.load(open(os.path.join(d, "meta.json")))
+    if not checks:
+        checks = [meta["property"].lower()]
+    wt = f"/tmp/sp-{name}"
+    sh(["git", "-C", "/repo", "worktree", "remove", "--force", wt])
+    rc, out = sh(["git", "-C", "/repo", "worktree", "add", "--detach", wt, "HEAD"])
+    try:
+        rc, out = sh(["git", "-C", wt, "apply", os.path.join(d, "patch.diff")])
+        if rc:
+            print("patch does not apply:", out)
+            return 1
+        touched = [l[6:].strip() for l in open(os.path.join(d, "patch.diff")) if l.startswith("+++ b/")]
+        ov = os.path.join(wt, "overlay.json")
+        json.dump({"Replace": {os.path.join("/repo", t): os.path.join(wt, t) for t in touched}}, open(ov, "w"))
+        outroot = f"/tmp/seedout-{name}"
+        shutil.rmtree(outroot, ignore_errors=True)
+        os.makedirs(os.path.join(outroot, "bin"))
+        shutil.copy(os.path.join(ROOT, "known_findings.json"), outroot)
+        env = dict(ENV, VERIF_ROOT=outroot, VERIF_TIER=os.environ.get("VERIF_TIER", "quick"), VERIF_C20_BIN=os.path.join(outroot, "bin"), VERIF_C20_RACE="skipped")
+        binp = os.path.join(wt, "check.bin")
+        rc, out = sh(["go", "build", "-tags", "verif", "-overlay", ov, "-o", binp, "./cmd/check"], cwd=ROOT)
+        if rc:
+            print("overlay build failed:", out[-1500:])
+            return 1
+        for c in checks:
+            t0 = time.time()
+            if c == "c20":
+                tb = os.path.join(wt, "watchmc.test")
+                rc, out = sh(["go1.26", "test", "-tags", "verif", "-overlay", ov, "-c", "-o", tb, "./watchmc"], cwd=ROOT)
+                if rc == 0:
+                    rc, out = sh([tb, "-test.run", "TestC20$", "-test.count=1", "-test.timeout", "30m"], cwd=os.path.join(ROOT, "watchmc"), env=env)
+            else:
+                rc, out = sh([binp, c], cwd=ROOT, env=env)
+            rules = sorted(set(l.strip().split(" ")[0][5:] for l in out.splitlines() if l.strip().startswith("rule=")))
+            verdict = "CAUGHT" if "VIOLATION property=" in out else ("MISSED" if rc == 0 else f"ERROR rc={rc}")
+            print(f"[precheck/overlay] {name} {c}: {verdict} {rules[:4]} ({time.time()-t0:.0f}s)")
+            if verdict.startswith("ERROR"):
+                print(out[-1200:])
+        shutil.rmtree(outroot, ignore_errors=True)
+    finally:
+        sh(["git", "-C", "/repo", "worktree", "remove", "--force", wt])
+        shutil.rmtree(wt, ignore_errors=True)
+    return 0
+
+
 if __name__ == "__main__":
     a = sys.argv[1:]
+    if len(a) >= 2 and a[0] == "precheck":
+        sys.exit(precheck(a[1], a[2:]))
     if len(a) >= 3 and a[0] == "verify":
         prop = a[a.index("--prop") + 1] if "--prop" in a else None
         sys.exit(verify(a[1], a[2], prop))
